@@ -552,6 +552,21 @@ def run_paths(case, workdir: Path):
                         table[u]["atNone"] = list(sorted(ps)[0])
                         if mode == "none":
                             table[u]["count"] = len(ps)
+        # history: the same collection saved a second time in this process under ANOTHER directory (the parent of A)
+        out["saved2"], out["A2"] = "skipped", comps(A)
+        for t in table.values():
+            t["stored2"] = [""]
+        if saved == "" and mode != "none" and case.get("place", "inside") == "inside":
+            A2 = A.parent if str(A.parent) not in ("", ".") else Path(".")
+            if str(A2) != ".":
+                f2 = tmp / "out" / "doc2.json"
+                a2 = str(A2) if mode == "str" else A2
+                out["saved2"], _ = outcome_of(lambda: io.save(root, f2, audio_dir=a2))
+                out["A2"] = comps(A2)
+                if out["saved2"] == "":
+                    for r in json.loads(f2.read_text())["data"].get("recordings") or []:
+                        if r["uuid"] in table:
+                            table[r["uuid"]]["stored2"] = comps(r["path"])
         out["recs"] = [table[k] for k in sorted(table, key=lambda u: table[u]["id"])]
         return out
     finally:
